@@ -119,4 +119,77 @@ theorem popTo_count (n : Nat) (st : List Nat) (h : st ≠ []) :
         · left; simp only [List.length_cons] at h1 ⊢; omega
         · right; exact h1
 
+/-! ### INDENT / DEDENT balance for every input -/
+
+theorem popTo_spec (n : Nat) (st : List Nat) (h : st.getLast? = some 0) :
+    (popTo n st).1.getLast? = some 0 ∧ (popTo n st).1.length + (popTo n st).2 = st.length := by
+  induction st with
+  | nil => simp at h
+  | cons top rest ih =>
+    unfold popTo
+    by_cases hn : n ≥ top
+    · simp [hn, h]
+    · simp only [hn, if_false]
+      cases rest with
+      | nil =>
+        simp at h; omega
+      | cons r rs =>
+        have h' : (r :: rs).getLast? = some 0 := by simpa [List.getLast?_cons_cons] using h
+        have := ih h'
+        simp only [List.length_cons] at this ⊢
+        exact ⟨this.1, by omega⟩
+
+/-- Invariant of the indentation stack: bottom level is column 0 and every open block is on it. -/
+def Bal (s : S2) : Prop :=
+  s.stack.getLast? = some 0 ∧ s.stack.length + s.out.count .dedent = 1 + s.out.count .indent
+
+theorem bal_init : Bal S2.init := by simp [Bal, S2.init]
+
+theorem bal_step (s : S2) (e : Event) (h : Bal s) : Bal (step2 s e) := by
+  obtain ⟨h1, h2⟩ := h
+  cases e with
+  | lineStart n =>
+    simp only [step2]
+    by_cases hgt : n > s.stack.headD 0
+    · simp only [hgt, if_true, Bal]
+      constructor
+      · cases hs : s.stack with
+        | nil => simp [hs] at h1
+        | cons a as => rw [hs] at h1; simpa [List.getLast?_cons_cons] using h1
+      · simp [List.count_append]; omega
+    · simp only [hgt, if_false]
+      by_cases hlt : n < s.stack.headD 0
+      · simp only [hlt, if_true]
+        have sp := popTo_spec n s.stack h1
+        generalize popTo n s.stack = r at sp ⊢
+        obtain ⟨st, c⟩ := r
+        simp only at sp ⊢
+        refine ⟨sp.1, ?_⟩
+        simp only [List.count_append, List.count_replicate]
+        split <;> simp <;> omega
+      · simp only [hlt, if_false]; exact ⟨h1, h2⟩
+  | tok id => simp only [step2, Bal]; refine ⟨h1, ?_⟩; simp [List.count_append]; omega
+  | newline => simp only [step2, Bal]; refine ⟨h1, ?_⟩; simp [List.count_append]; omega
+  | bad => simp only [step2, Bal]; refine ⟨h1, ?_⟩; simp [List.count_append]; omega
+
+theorem bal_run (s : S2) (evs : List Event) (h : Bal s) : Bal (run2 s evs) := by
+  unfold run2
+  induction evs generalizing s with
+  | nil => exact h
+  | cons e es ih => exact ih _ (bal_step s e h)
+
+/-- Blocks always balance: for **every** input the token stream handed to the parser has exactly as many DEDENTs as
+INDENTs (inconsistent dedents included — the error token is added, the blocks are still closed), so the parser's
+block recursion always finds its closing token before EOF. -/
+theorem indents_balance (items : List Item) : (lex items).count .dedent = (lex items).count .indent := by
+  unfold lex tokens finish
+  have ⟨h1, h2⟩ := bal_run S2.init (events items) bal_init
+  have hpos : 0 < (run2 S2.init (events items)).stack.length := by
+    cases hs : (run2 S2.init (events items)).stack with
+    | nil => simp [hs] at h1
+    | cons a as => simp
+  simp [List.count_append, List.count_replicate]
+  omega
+
+
 end Incan.Layout
